@@ -352,6 +352,9 @@ func TestVerifC32Copy(t *testing.T) {
 			target := ids[rapid.IntRange(0, len(ids)-1).Draw(t, "modtarget")]
 			kind := rapid.SampledFrom([]string{"tag", "rehost", "exclude"}).Draw(t, "modkind")
 			model := srcModels[target]
+			if kind == "exclude" && len(model.Tree.Paths()) == 0 {
+				kind = "rehost" // nothing left to exclude in an (already emptied) tree
+			}
 			var err error
 			switch kind {
 			case "tag":
